@@ -292,7 +292,10 @@ type finding struct {
 	detail string
 }
 
+var commitRetries = 1
+
 func tweak(cfg *raft.Config) {
+	cfg.CommitRetries = commitRetries
 	cfg.RaftConfig.SnapshotInterval = 15 * time.Second
 	cfg.RaftConfig.SnapshotThreshold = 1
 	cfg.RaftConfig.TrailingLogs = 0
@@ -427,9 +430,11 @@ func (w *world) checkPrefix(where string) {
 func (w *world) doOp(o op) bool {
 	ctx, cancel := context.WithTimeout(context.Background(), 60*time.Second)
 	defer cancel()
-	target := w.leader()
+	var target *slot
 	if o.At == "OL" && w.oldL != nil {
 		target = w.oldL
+	} else {
+		target = w.leader()
 	}
 	if target == nil {
 		w.viol = append(w.viol, finding{"harness:no-leader", "no leader found"})
@@ -531,6 +536,12 @@ func run(t *testing.T, h history) (outcome string, viol []finding, states map[st
 	scratch, _ := os.MkdirTemp(os.Getenv("VERIF_SCRATCH"), "c01")
 	defer os.RemoveAll(scratch)
 	outcome = "ok"
+	commitRetries = 1
+	for _, d := range h.Devs {
+		if d.Kind == "isoL" {
+			commitRetries = 0 // the failed commit is the last attempt
+		}
+	}
 	clus.Bubble(t, func(t *testing.T) {
 		ctx := context.Background()
 		mn, hosts := clus.NewMocknet(ctx, 0, h.N)
@@ -575,10 +586,8 @@ func run(t *testing.T, h history) (outcome string, viol []finding, states map[st
 					lagged = nil
 					time.Sleep(3 * time.Second)
 					synctest.Wait()
-				case d.Kind == "isoL" && d.I == i:
-					w.oldL = w.leader()
-					w.isolate(w.oldL, true)
 				case d.Kind == "isoL" && d.I+1 == i && w.oldL != nil:
+					time.Sleep(6 * time.Second) // the majority elects a new leader first
 					w.isolate(w.oldL, false)
 					w.oldL = nil
 					time.Sleep(3 * time.Second)
@@ -606,6 +615,10 @@ func run(t *testing.T, h history) (outcome string, viol []finding, states map[st
 				o := h.Ops[i]
 				for _, d := range h.Devs {
 					if d.Kind == "isoL" && d.I == i {
+						// cut the leader off and submit at once, while it
+						// still believes it leads
+						w.oldL = w.leader()
+						w.isolate(w.oldL, true)
 						o.At = "OL"
 					}
 				}
@@ -620,6 +633,7 @@ func run(t *testing.T, h history) (outcome string, viol []finding, states map[st
 			w.isolate(lagged, false)
 		}
 		if w.oldL != nil {
+			time.Sleep(6 * time.Second)
 			w.isolate(w.oldL, false)
 			w.oldL = nil
 			time.Sleep(3 * time.Second)
@@ -640,10 +654,13 @@ func run(t *testing.T, h history) (outcome string, viol []finding, states map[st
 				w.ref = append(w.ref, refOp{pin: marker})
 				wants := wantSigs(w.ref)
 				want := sigOf(apply(w.ref))
+				caughtUp := map[int]bool{}
 				for _, s := range w.slots {
 					caught := false
 					var sig string
-					for try := 0; try < 10; try++ {
+					// replication to a peer that was unreachable backs off up
+					// to ~40s in hashicorp/raft
+					for try := 0; try < 90; try++ {
 						sig, _ = w.stateSig(s)
 						if strings.Contains(sig, "cid="+marker.Cid.String()+" ") {
 							caught = true
@@ -656,17 +673,21 @@ func run(t *testing.T, h history) (outcome string, viol []finding, states map[st
 						w.viol = append(w.viol, finding{"info:no-catch-up", fmt.Sprintf("peer %d never showed the marker", s.idx)})
 						continue
 					}
+					caughtUp[s.idx] = true
 					if !wants[sig] {
 						w.fail("caught-up-peer-differs", "peer %d has caught up (shows the marker) but its pinset is not the result of the whole committed sequence:\n%s\nexpected:\n%s", s.idx, sig, want)
 					}
 				}
-				first := ""
-				for i, s := range w.slots {
+				first, firstIdx := "", -1
+				for _, s := range w.slots {
+					if !caughtUp[s.idx] {
+						continue
+					}
 					sig, _ := w.stateSig(s)
-					if i == 0 {
-						first = sig
+					if firstIdx < 0 {
+						first, firstIdx = sig, s.idx
 					} else if sig != first {
-						w.fail("caught-up-peers-disagree", "peers 0 and %d have both caught up but hold different pinsets:\n%s\n--\n%s", s.idx, first, sig)
+						w.fail("caught-up-peers-disagree", "peers %d and %d have both caught up but hold different pinsets:\n%s\n--\n%s", firstIdx, s.idx, first, sig)
 					}
 				}
 				w.settle()
@@ -676,6 +697,9 @@ func run(t *testing.T, h history) (outcome string, viol []finding, states map[st
 					s.rp.Cons.Shutdown(ctx)
 				}
 				for _, s := range w.slots {
+					if !caughtUp[s.idx] {
+						continue
+					}
 					st, err := raft.OfflineState(s.rp.Cfg, inmem.New())
 					if err != nil {
 						w.fail("offline-state-error", "peer %d: OfflineState: %v", s.idx, err)
@@ -750,6 +774,9 @@ func (w *world) checkTracker() {
 // ---------- driver ----------
 
 func TestHistories(t *testing.T) {
+	if os.Getenv("C01_DEBUG") != "" {
+		t.Skip()
+	}
 	hs := enumerate()
 	if p := os.Getenv("VERIF_REPLAY"); p != "" {
 		replay(t, p, hs)
